@@ -585,9 +585,14 @@ func cmdCheck(args []string) int {
 		type pending struct {
 			v     interp.Violation
 			known bool
+			idx   int
 		}
 		var pend []pending
-		var sampleOf []interp.Sample
+		type sampled struct {
+			sm  interp.Sample
+			idx int
+		}
+		var sampleOf []sampled
 		for _, h := range hs {
 			s := newSession(ld, rc, h, id, known)
 			th := time.Now()
@@ -622,15 +627,15 @@ func cmdCheck(args []string) int {
 				}
 			}
 			for _, v := range s.Viol {
-				pend = append(pend, pending{v, false})
+				pend = append(pend, pending{v, false, len(cases)})
 				cases = append(cases, replayCase{h, v.Model})
 			}
 			for _, v := range s.KnownHits {
-				pend = append(pend, pending{v, true})
+				pend = append(pend, pending{v, true, len(cases)})
 				cases = append(cases, replayCase{h, v.Model})
 			}
 			for _, sm := range s.Samples {
-				sampleOf = append(sampleOf, sm)
+				sampleOf = append(sampleOf, sampled{sm, len(cases)})
 				cases = append(cases, replayCase{h, sm.Model})
 				if len(samples) < 6 {
 					samples = append(samples, map[string]interface{}{"harness": h, "outcome": sm.Outcome, "branch_decisions": sm.Decision, "inputs": sm.Model, "observed": sm.Observed})
@@ -644,10 +649,10 @@ func cmdCheck(args []string) int {
 			inconclusive = append(inconclusive, "native replay failed: "+err.Error())
 			os.WriteFile(filepath.Join(verifDir, "evidence", id+".replay.log"), []byte(rlog), 0o644)
 		}
-		for k, p := range pend {
+		for _, p := range pend {
 			var r *replayResult
 			if res != nil {
-				r = res[k]
+				r = res[p.idx]
 			}
 			if !confirms(p.v, r) {
 				rb, _ := json.Marshal(r)
@@ -679,11 +684,11 @@ func cmdCheck(args []string) int {
 			exit = 1
 		}
 		// translator validation: sampled completed paths must behave natively as predicted
-		base := len(pend)
-		for k, sm := range sampleOf {
+		for _, so := range sampleOf {
+			sm := so.sm
 			var r *replayResult
 			if res != nil {
-				r = res[base+k]
+				r = res[so.idx]
 			}
 			if r == nil {
 				continue
